@@ -165,6 +165,7 @@ func (fx *FuncCtx) lock(st *State, mu Val, mode string, pos token.Pos) {
 	ref := mu.L.Ref
 	// havoc guarded state of this object
 	fx.bumpTop(st)
+	fx.chanHavoc(st)
 	fx.havocMonitor(st, nt, md, ref)
 	// inhale invariants
 	env := fx.specEnv(st, st.heap, st.heap)
@@ -211,6 +212,7 @@ func (fx *FuncCtx) havocMonitor(st *State, nt *types.Named, md *MonitorDecl, ref
 				for _, ec := range fx.mode.comps(sl.Elem()) {
 					k := fx.elemKey(sl.Elem(), ec)
 					f := fx.decls.fresh("hv$"+g+"$arr", "(Array "+fx.mode.lenSort()+" "+ec.sort+")")
+					fx.assumeArrayTyping(st, f, sl.Elem(), ec)
 					fx.heapSet(st, k, sx("store", fx.heapGet(st.heap, k), nv.C[0], f))
 				}
 				fx.assumeOwnedDistinct(st, nv.C[0])
@@ -536,6 +538,7 @@ func (fx *FuncCtx) applyContract(st *State, callee *ssa.Function, fc *FuncContra
 		st.assume(t)
 	}
 	old := copyMap(st.heap)
+	topBefore := st.top()
 	if !fc.Pure {
 		fx.havocModifies(st, env, fc)
 		// a public method of a monitor may change the guarded state of its receiver
@@ -556,6 +559,7 @@ func (fx *FuncCtx) applyContract(st *State, callee *ssa.Function, fc *FuncContra
 		fx.assumeTyping(st, res)
 	}
 	env2 := fx.calleeEnv(st, callee, fc, fnv, args, st.heap, old)
+	env2.entryTop = topBefore
 	rs := res.Tup
 	if rt != nil && res.Tup == nil {
 		rs = []Val{res}
@@ -675,10 +679,14 @@ func (fx *FuncCtx) havocModifies(st *State, env *SpecEnv, fc *FuncContract) {
 				case t.elems:
 					inner := innerSort(k.Sort)
 					na := fx.decls.fresh("mod$arr", inner)
+					if et, ok := fx.intElemKeys[k.Key]; ok {
+						fx.decls.n++
+						qt := fmt.Sprintf("q$tm!%d", fx.decls.n)
+						st.assume("(forall ((" + qt + " Int)) (! " + fx.ar.rangeFact(sx("select", na, qt), et) + " :pattern (" + sx("select", na, qt) + ")))")
+					}
 					fx.decls.n++
 					qi := fmt.Sprintf("q$mi!%d", fx.decls.n)
-					out := or(fx.lenCmp("<", qi, t.win[0]), fx.lenCmp(">=", qi, fx.lenOp("+", t.win[0], t.win[1])))
-					st.assume("(forall ((" + qi + " " + fx.mode.lenSort() + ")) (! " + implies(out, eq(sx("select", na, qi), sx("select", sx("select", cur, t.ref), qi))) + " :pattern (" + sx("select", na, qi) + ")))")
+					_ = qi
 					fx.heapSet(st, k, sx("store", cur, t.ref, na))
 				default:
 					inner := innerSort(k.Sort)
@@ -780,13 +788,36 @@ func (fx *FuncCtx) frameObligations(st *State, env *SpecEnv, pos token.Pos) {
 		if a != nil && a.all {
 			continue
 		}
+		// syntactic check: every written object is allowed (modifies, monitor receiver, or allocated here)
+		if ws := st.writes[key]; ws != nil && !ws["*"] {
+			okAll := true
+			for w := range ws {
+				ok := st.freshRefs[w]
+				if a != nil && !strings.HasPrefix(key, "A$") {
+					for _, r := range a.refs {
+						if r == w {
+							ok = true
+						}
+					}
+				}
+				if mref, isMon := monitorKeys[key]; isMon && mref == w {
+					ok = true
+				}
+				if !ok {
+					okAll = false
+				}
+			}
+			if okAll {
+				continue
+			}
+		}
 		if !strings.HasPrefix(srt, "(Array Int ") {
 			// scalar global
 			fx.oblige(st, "frame", key, eq(final, entry), pos, "global "+key+" not in modifies")
 			continue
 		}
 		o := fx.decls.fresh("frame$o", "Int")
-		hy := []string{sx("<=", o, fx.entryTop), sx(">=", o, "0")}
+		hy := []string{sx("<=", o, fx.entryTop), sx(">", o, "0")}
 		if a != nil {
 			for _, r := range a.refs {
 				hy = append(hy, not(eq(o, r)))
@@ -797,12 +828,10 @@ func (fx *FuncCtx) frameObligations(st *State, env *SpecEnv, pos token.Pos) {
 		}
 		goal := eq(sx("select", final, o), sx("select", entry, o))
 		if strings.HasPrefix(key, "A$") && a != nil && len(a.elems) > 0 {
-			// element-wise: outside every allowed window
-			i := fx.decls.fresh("frame$i", fx.mode.lenSort())
+			// `modifies x[*]` allows the whole backing array of x to change
 			for _, t := range a.elems {
-				hy = append(hy, or(not(eq(o, t.ref)), fx.lenCmp("<", i, t.win[0]), fx.lenCmp(">=", i, fx.lenOp("+", t.win[0], t.win[1]))))
+				hy = append(hy, not(eq(o, t.ref)))
 			}
-			goal = eq(sx("select", sx("select", final, o), i), sx("select", sx("select", entry, o), i))
 		}
 		// owned arrays of a monitor receiver: exempt bases owned at entry are unknown; element arrays reachable only
 		// through guarded owned fields are exempted through the ownership assumption
@@ -917,7 +946,13 @@ func (fx *FuncCtx) ghostAssign(st *State, env *SpecEnv, gs GhostStmt, cond strin
 		rv := env.eval(gs.RHS)
 		newVal = env.coerce(rv, gt)
 	}
-	newVal = ite(cond, newVal, curVal)
+	if cond != "true" {
+		// guarded update as a fresh constant with two implications (keeps array terms free of ite)
+		g := fx.decls.fresh("gupd", fx.mode.comps(gt)[0].sort)
+		st.assume(implies(cond, eq(g, newVal)))
+		st.assume(implies(not(cond), eq(g, curVal)))
+		newVal = g
+	}
 	if ref != "" {
 		fx.heapSet(st, key, sx("store", cur, ref, newVal))
 	} else {
@@ -967,9 +1002,9 @@ func (fx *FuncCtx) callEffects(cc *ssa.CallCommon, cellSet map[ssa.Value]bool, k
 			case "(*sync.Mutex).Lock", "(*sync.RWMutex).Lock", "(*sync.RWMutex).RLock":
 				// all guarded keys of the monitor type
 				if fa, ok := cc.Args[0].(*ssa.FieldAddr); ok {
-					root, _, _ := fx.staticFieldPath(fa)
+					root, _, base := fx.staticFieldPath(fa)
 					if nt := namedOf(root); nt != nil {
-						fx.monitorKeysStatic(nt, keySet)
+						fx.monitorKeysStatic(nt, keySet, base)
 					}
 				}
 				return true
@@ -988,20 +1023,31 @@ func (fx *FuncCtx) callEffects(cc *ssa.CallCommon, cellSet map[ssa.Value]bool, k
 	}
 	// evaluate modifies targets with dummy arguments of the right static types
 	vars := map[string]Val{}
+	dummyArg := map[string]ssa.Value{}
+	var curArg ssa.Value
 	mk := func(name string, t types.Type) {
 		v := Val{T: t}
 		for i, c := range fx.mode.compsSafe(t) {
-			v.C = append(v.C, fx.decls.declare(fmt.Sprintf("dummy$%s$%d", sanitize(name), i), c.sort))
+			d := fx.decls.declare(fmt.Sprintf("dummy$%s$%d", sanitize(name), i), c.sort)
+			v.C = append(v.C, d)
+			if curArg != nil {
+				dummyArg[d] = curArg
+			}
 		}
 		vars[name] = v
 	}
 	sig := cc.Signature()
 	if cc.IsInvoke() {
 		if fc.Recv != "" {
+			curArg = cc.Value
 			mk(fc.Recv, cc.Value.Type())
 		}
 		for i, n := range fc.Params {
 			if i < sig.Params().Len() {
+				curArg = nil
+				if i < len(cc.Args) {
+					curArg = cc.Args[i]
+				}
 				mk(n, sig.Params().At(i).Type())
 			}
 		}
@@ -1009,15 +1055,24 @@ func (fx *FuncCtx) callEffects(cc *ssa.CallCommon, cellSet map[ssa.Value]bool, k
 		off := 0
 		if sig.Recv() != nil {
 			if fc.Recv != "" {
+				curArg = nil
+				if len(cc.Args) > 0 {
+					curArg = cc.Args[0]
+				}
 				mk(fc.Recv, sig.Recv().Type())
 			}
-			off = 0
+			off = 1
 		}
 		for i, n := range fc.Params {
-			if i+off < sig.Params().Len() {
-				mk(n, sig.Params().At(i+off).Type())
+			if i < sig.Params().Len() {
+				curArg = nil
+				if i+off < len(cc.Args) {
+					curArg = cc.Args[i+off]
+				}
+				mk(n, sig.Params().At(i).Type())
 			}
 		}
+		curArg = nil
 		if callee != nil {
 			for _, fv := range callee.FreeVars {
 				if pt, ok := fv.Type().Underlying().(*types.Pointer); ok {
@@ -1032,18 +1087,23 @@ func (fx *FuncCtx) callEffects(cc *ssa.CallCommon, cellSet map[ssa.Value]bool, k
 		for _, t := range fx.modTargets(env, m) {
 			for _, k := range t.keys {
 				keySet[k.Key] = k
+				if t.elems {
+					fx.noteEff(k.Key, nil)
+				} else {
+					fx.noteEff(k.Key, dummyArg[t.ref])
+				}
 			}
 		}
 	}
 	if callee != nil && callee.Signature.Recv() != nil && len(fc.Locked) == 0 {
-		if nt := namedOf(callee.Signature.Recv().Type()); nt != nil && fx.eng.monitorOf(nt) != nil {
-			fx.monitorKeysStatic(nt, keySet)
+		if nt := namedOf(callee.Signature.Recv().Type()); nt != nil && fx.eng.monitorOf(nt) != nil && len(cc.Args) > 0 {
+			fx.monitorKeysStatic(nt, keySet, cc.Args[0])
 		}
 	}
 	return false
 }
 
-func (fx *FuncCtx) monitorKeysStatic(nt *types.Named, keySet map[string]HeapKey) {
+func (fx *FuncCtx) monitorKeysStatic(nt *types.Named, keySet map[string]HeapKey, src ssa.Value) {
 	md := fx.eng.monitorOf(nt)
 	if md == nil {
 		return
@@ -1056,12 +1116,14 @@ func (fx *FuncCtx) monitorKeysStatic(nt *types.Named, keySet map[string]HeapKey)
 				for _, c := range fx.mode.comps(ft) {
 					k := fx.fieldKey(nt, g, c)
 					keySet[k.Key] = k
+					fx.noteEff(k.Key, src)
 				}
 				if cls, _ := fx.eng.fieldClass(nt, g); cls == "owned" {
 					if sl, ok := ft.Underlying().(*types.Slice); ok {
 						for _, c := range fx.mode.comps(sl.Elem()) {
 							k := fx.elemKey(sl.Elem(), c)
 							keySet[k.Key] = k
+							fx.noteEff(k.Key, nil)
 						}
 					}
 				}
@@ -1071,6 +1133,7 @@ func (fx *FuncCtx) monitorKeysStatic(nt *types.Named, keySet map[string]HeapKey)
 	for _, gf := range fx.eng.ghostFieldsOf(nt) {
 		k := fx.fieldKey(nt, "ghost$"+gf.Name, fx.mode.comps(gf.T)[0])
 		keySet[k.Key] = k
+		fx.noteEff(k.Key, src)
 	}
 }
 
